@@ -313,10 +313,10 @@ class World:
                 return True
             run(f)
             if job.id != new_id:
-                raise Unexpected("state-point-change-has-no-effect",
+                raise Unexpected("state-point-assignment-ignores-type-only-difference" if old == new
+                                 else "state-point-change-has-no-effect",
                                  f"{op}: state point {old} -> {new} requested, handle still reports id {job.id} "
-                                 f"and state point {job.statepoint()!r}", op=name,
-                                 values_python_equal=bool(old == new))
+                                 f"and state point {job.statepoint()!r}", op=name)
             if new_id != jid:
                 self._invalidate_others(grp, proj, jid)
                 if mj is not None:
